@@ -357,45 +357,60 @@ EXTRA = {
     "C01": " The trait is also assigned through a PrototypedFrom attribute; legacy mapped compounds "
            "(Trait('yes', {...}, List)) are in the grid; the whole lattice is assigned a second time in "
            "reverse order on the same trait definition and must give the same verdicts and stored results "
-           "(history independence).",
+           "(history independence)."
+           ' Seventh wave: the legacy handler classes behind Trait(...) (coercing, casting, instance by class and by name, enumeration, compounds of them), validated Property(trait) attributes with a setter, tuple-subclass and byte-swapped array values.',
     "C02": " One-off exhaustive cells: names governed by one wildcard declaration with static handlers "
            "(all histories up to length 3 over 3 names x 2 values on two instances); two instances carrying "
            "a same-named instance trait with different comparison modes. The last bulk route is part of the "
            "state key (trait_setq switches a hidden per-object mode). Values include numpy arrays (a != without a truth value); @observe methods carrying a magic name.",
     "C03": " Validation must leave the caller's own tuple alone; cells with a Map whose mapping is changed "
-           "after the trait was defined.",
+           "after the trait was defined."
+           ' Legacy handler classes behind Trait(...) are compared like the trait types (their compiled descriptor against their own Python validate), including a by-name TraitInstance alone, in a compound and as a Tuple member; tuple subclasses are among the values.',
     "C04": " Owners are collection-like (falsy while the container is empty); whole-value assignment also "
-           "with a detached deep copy of the trait's own value as carrier of the items. Further configurations: Undefined as invalid item, a user trait type raising message-only TraitErrors, equal length bounds; cells for two-deep containers of a class given by name, defaults of length-bounded lists, one definition shared by two attributes.",
+           "with a detached deep copy of the trait's own value as carrier of the items. Further configurations: Undefined as invalid item, a user trait type raising message-only TraitErrors, equal length bounds; cells for two-deep containers of a class given by name, defaults of length-bounded lists, one definition shared by two attributes."
+           ' Cells for the legacy declaration Trait(default, container trait) on a class and through add_trait: the never-assigned default is as guarded as any assigned value.',
     "C05": " Right-hand sides include the list itself and replacements by equal values of another type "
            "(change = another value or type at some position); a bare mode has no notifier at all; the "
-           "owner is falsy while its list is empty. An owner mode on a List trait with length bounds 1..4.",
-    "C06": " A bare mode has no notifier at all; the owner is falsy while its dict is empty. A user subclass with __missing__.",
+           "owner is falsy while its list is empty. An owner mode on a List trait with length bounds 1..4."
+           ' Further owner modes: the list kept behind a validated Property(List) (reached through the getter only) and a strict class whose attribute is Union(None, List) with a by-name items handler attached first; keys that only implement __index__; sorts whose comparisons fail half-way (a re-ordering must be announced).',
+    "C06": " A bare mode has no notifier at all; the owner is falsy while its dict is empty. A user subclass with __missing__."
+           " A second owner mode stores the library's Undefined and None as values.",
     "C07": " A bare mode has no notifier at all; the owner is falsy while its set is empty; the trait value "
-           "itself is shallow-copied too.",
+           "itself is shallow-copied too."
+           ' Cells for sets whose members are frozensets and for set-valued lookup arguments (remove, discard, in), lock-step with the built-in.',
     "C08": " One-off exhaustive cells: a change handler (the observe handler itself, or an on_trait_change "
            "handler registered before / after the observer) re-assigns the observed link while the "
            "assignment is being dispatched (all start/new/replacement combinations over the pool); an "
-           "observable constant default (Any(obj)) is one of the expressions. Cells for wildcard-governed attributes coming into being under an observer.",
+           "observable constant default (Any(obj)) is one of the expressions. Cells for wildcard-governed attributes coming into being under an observer."
+           " Links that are cached properties (root level, registered before the history; values are followed through the property's change events); the wildcard cells add a second, unobserved instance of the class.",
     "C10": " A dynamic Range whose number type follows the instance's bounds is among the default kinds "
-           "(floats are compared typed). A cell for a default whose announcement fails.",
+           "(floats are compared typed). A cell for a default whose announcement fails."
+           " A default named by another trait (dynamic Range value='dv'): a never-assigned attribute keeps the default it was first read with; small groups of interdependent traits are explored one level deeper; the model's record of first reads is part of the state key.",
     "C11": " A variant attaches and detaches the deferring attribute's handlers during the history; a "
-           "history ending in a refused write is kept apart from the unchanged state. Kinds with a Property-valued delegate / prototype attribute; all instances are of a subclass that adds nothing.",
+           "history ending in a refused write is kept apart from the unchanged state. Kinds with a Property-valued delegate / prototype attribute; all instances are of a subclass that adds nothing."
+           ' Two more worlds defer onto List / Dict / Set / Event(Int) targets (in-place mutation on either side, whole-value assignment, validated payloads: handlers of the deferring attribute only ever see values); a target declared by a wildcard only; introspection calls (base_trait, trait, validate_trait, traits, trait_get) are events and must change nothing.',
     "C12": " Also a cached property whose value is None most of the time and a dependency holding values "
            "whose == raises AttributeError. A property observed through another property.",
     "C13": " One-off cells: a trait_added listener adds an instance trait for the very name whose first "
            "access announced it (that access is already governed by the instance trait); the _items "
            "companion of a removed List instance trait is compared with a control instance that never had "
-           "one. The instance-trait tables are part of the state key. Mapped instance traits and their shadow names.",
+           "one. The instance-trait tables are part of the state key. Mapped instance traits and their shadow names."
+           ' Instance traits without a handler object (untyped Property) and the result of remove_trait are checked explicitly.',
     "C14": " A trait nobody read before the copy, with a default that differs per computation, must read "
            "the same on original and copy; round-tripped definitions are also driven through base_trait, "
-           "validate_trait and clone_traits. A prototyped attribute declared before its prototype holder; a list that may not be empty.",
+           "validate_trait and clone_traits. A prototyped attribute declared before its prototype holder; a list that may not be empty."
+           ' Object-valued prototyped attributes with local overrides must not be shared with the copy; definition scripts read the shadow value after every assignment and use values that need adapting.',
     "C16": " One-off cells: a list of extended names registered and removed in every grouping and order "
-           "(5 x 5 forms). Cells for Dict links with trait names ending in letters of '_items', for a removal naming an unregistered handler, for handler signatures with 0..4 arguments.",
+           "(5 x 5 forms). Cells for Dict links with trait names ending in letters of '_items', for a removal naming an unregistered handler, for handler signatures with 0..4 arguments."
+           " Cells: a re-assigned '.' link is reported to handlers of every signature where observe reports it (from None and from an object), names with blanks around them, one handler under two names sharing a link with one registration removed.",
     "C17": " Late registration also of a class with the protocol an offer adapts from.",
     "C18": " Two further cells: a default replaced by post_setattr during the first read; an "
-           "AttributeError in a default method with warnings turned into errors. Cells for malformed factory arguments, star-prefix delegates with str-subclass names, a tuple whose later member raises, property_fields of round-tripped property definitions.",
-    "C19": " A fifth injected exception is a RuntimeError whose first argument is not a string. Cells for nested containment policies (every push/pop nesting up to depth 3, both handler systems).",
-    "C09": " One-off cells: registrations removed or added by a handler while it is being called (4 expressions x 5 actions x 1..2 registrations); anytrait observers with traits appearing later; lifetime (a closure cycle through the notifier list, a handler raising to the caller).",
+           "AttributeError in a default method with warnings turned into errors. Cells for malformed factory arguments, star-prefix delegates with str-subclass names, a tuple whose later member raises, property_fields of round-tripped property definitions."
+           ' Cell for a delegate that is a temporary object handed out by a property (write-through Delegate).',
+    "C19": " A fifth injected exception is a RuntimeError whose first argument is not a string. Cells for nested containment policies (every push/pop nesting up to depth 3, both handler systems)."
+           ' Registrations under extended names (on_trait_change and observe) are faulted operations too.',
+    "C09": " One-off cells: registrations removed or added by a handler while it is being called (4 expressions x 5 actions x 1..2 registrations); anytrait observers with traits appearing later; lifetime (a closure cycle through the notifier list, a handler raising to the caller)."
+           " Cells for the function-level observe() with the caller's own dispatcher (bound method, callable instance, partial; counts 1-3 x three expressions), for a link that is a Property, and `del` of an observed link as a graph event.",
     "C20": " One-off exhaustive cells: y derived from x by a change handler on one object with x and y "
            "linked in all 15 style combinations (all histories up to length 2 / 3 over 12 assignments); the "
            "style of a link changed by a second sync_trait call without removal. A history ending in a "
